@@ -231,9 +231,17 @@ def correspond(ctx: C.Ctx, cov: C.Coverage) -> List[C.Disagreement]:
             cov.hit("checker:" + ("equal" if what is None else "mutated"))
             if what:
                 cov.nontrivial.add(f"{what[0]}.{what[1]}")
+        # overall status: EVERY list of up to 4 step statuses, through the public state manager API
+        for sts in status_lists(4 if ctx.tier == "quick" else 6):
+            lines.append(["overall", [STATUS_NAMES[s] for s in sts]]); expect.append(("overall", STATUS_NAMES[real_overall(sts)])); meta_.append(("overall", sts))
+            cov.evaluations += 1
+            cov.hit("overall")
         out = C.run_model("C20", lines)
         for m, e, mt in zip(out, expect, meta_):
-            if e[0] == "verdict":
+            if e[0] == "overall":
+                if m != e[1]:
+                    dis.append(C.Disagreement(f"overall status of steps {list(mt[1])}", {"statuses": list(mt[1])}, m, e[1]))
+            elif e[0] == "verdict":
                 if m != e[1]:
                     dis.append(C.Disagreement(f"AASDataChecker verdict on {'equal pair' if mt[1] is None else 'mutation of ' + str(mt[1])}",
                                               {"pair": str(mt[1])}, m, e[1]))
@@ -256,6 +264,35 @@ def correspond(ctx: C.Ctx, cov: C.Coverage) -> List[C.Disagreement]:
     finally:
         shutil.rmtree(d, ignore_errors=True)
     return dis
+
+
+STATUS_NAMES = {"SUCCESS": "success", "SUCCESS_WITH_WARNINGS": "warnings", "FAILED": "failed", "NOT_EXECUTED": "notExecuted"}
+
+
+def status_lists(maxlen: int):
+    import itertools
+    for L in range(0, maxlen + 1):
+        yield from itertools.product(list(STATUS_NAMES), repeat=L)
+
+
+def real_overall(sts) -> str:
+    from aas_compliance_tool.state_manager import ComplianceToolStateManager, Status
+    m = ComplianceToolStateManager()
+    for i, s in enumerate(sts):
+        m.add_step(f"step {i}")
+        m.set_step_status(Status[s])
+    return m.status.name
+
+
+def check_overall(sts) -> Optional[C.Failing]:
+    """the statement itself: the overall status is the worst step status (order of the Status enumeration), SUCCESS if none"""
+    order = list(STATUS_NAMES)
+    want = max(sts, key=order.index) if sts else "SUCCESS"
+    got = real_overall(sts)
+    if got != want:
+        return C.Failing(f"status:overall-not-worst:{want}->{got}", f"steps {list(sts)}: overall status {got}, worst step status {want}",
+                         {"statuses": list(sts)}, got, want)
+    return None
 
 
 # ----------------------------------------------------------------------------------------------- checker pairs
@@ -381,6 +418,10 @@ def oracle(ctx: C.Ctx, cov: C.Coverage, n: Optional[int] = None, seed: Optional[
     def add(f):
         if f.sig not in sigs:
             sigs.add(f.sig); out.append(f)
+    for sts in status_lists(4 if ctx.tier == "quick" else 6):
+        f = check_overall(sts)
+        if f:
+            add(f)
     d = tempfile.mkdtemp(prefix="verif-c20o-")
     try:
         files = write_inputs(d, seed, n or ctx.budget(8, 120))
@@ -440,6 +481,8 @@ def search(ctx: C.Ctx, disagreements, broken) -> List[C.Failing]:
 def replay(case) -> Optional[C.Failing]:
     if case.get("probe") == "unordered-list":
         return unordered_list_probe()
+    if "statuses" in case:
+        return check_overall(case["statuses"])
     fs = oracle(C.Ctx("C20", "quick", case.get("seed", 0), random.Random(0), 0, 1), C.Coverage(), seed=case.get("seed", 0))
     for f in fs:
         if all(f.case.get(k) == v for k, v in case.items() if k in ("fmt", "check", "category", "pair")):
